@@ -466,6 +466,7 @@ func execMultiFree(ms *MultiScenario, lay Layout, rw string, out *multiOut) {
 		out.errs[0] = err
 		return
 	}
+	ms.Tr.ApplyKnobs()
 	ln := kernel.NewFreeListener()
 	go srv.Serve(ctx, ln)
 	var wg sync.WaitGroup
